@@ -2,11 +2,11 @@
 package c10
 
 import (
-	"os"
 	"context"
 	"encoding/json"
 	"errors"
 	"fmt"
+	"os"
 	"sort"
 	"strings"
 	"sync"
